@@ -31,4 +31,90 @@ OJ == [sp |-> BalSpendable, conf |-> BalConfirmed, imm |-> BalImmature, unc |-> 
 \* Printed once per explored transition (evaluated as ACTION_CONSTRAINT)
 EmitEdge ==
     PrintT("EDGE " \o ToJson([from |-> SJ, act |-> act', reply |-> reply', to |-> SJ', obs |-> OJ']))
+
+-----------------------------------------------------------------------------
+(* Leg R schedule generator.  PolicyNext resolves the permissive choices of Fund /
+   Redistribute / Split the way the code intends to (wallet.go:332-403, 745-757, 912-957:
+   largest first, then bounded defrag of the smallest leftovers), so that the exported graph
+   has one edge per (state, call).  Every PolicyNext step IS a Next step (it instantiates the
+   same action with one admissible descriptor); the real wallet may legitimately answer with
+   another admissible selection (ties), which the replay notices and then leaves to TLC trace
+   validation against the permissive specification. *)
+
+Big(S)   == CHOOSE x \in S : \A y \in S : Val(y) < Val(x) \/ (Val(y) = Val(x) /\ x <= y)
+Small(S) == CHOOSE x \in S : \A y \in S : Val(y) > Val(x) \/ (Val(y) = Val(x) /\ x <= y)
+RECURSIVE PickLargest(_, _)        \* largest first until the sum reaches need
+PickLargest(S, need) ==
+    IF need <= 0 \/ S = {} THEN {} ELSE LET x == Big(S) IN {x} \cup PickLargest(S \ {x}, need - Val(x))
+RECURSIVE PickOver(_, _)           \* largest first until the sum EXCEEDS want (or S is used up)
+PickOver(S, want) ==
+    IF want < 0 \/ S = {} THEN {} ELSE LET x == Big(S) IN {x} \cup PickOver(S \ {x}, want - Val(x))
+RECURSIVE PickSmallest(_, _)
+PickSmallest(S, k) ==
+    IF k <= 0 \/ S = {} THEN {} ELSE LET x == Small(S) IN {x} \cup PickSmallest(S \ {x}, k - 1)
+
+PolicySel(amt, unc) ==
+    LET c == PickLargest(ConfMust, amt)
+        short == amt - SumV(c)
+        rest == ConfMust \ c
+        k == Cardinality(c)
+    IN IF short > 0 THEN c \cup (IF unc THEN PickLargest(UncMust, short) ELSE {})
+       ELSE IF Cardinality(rest) > cfg.dt /\ k < cfg.mi
+            THEN c \cup PickSmallest(rest, MinOf(cfg.md, cfg.mi - k))
+            ELSE c
+
+PolicyFund ==
+    \E ver \in {1, 2}, unc \in BOOLEAN : \E amt \in FundAmts(unc) :
+        \/ FundZero(ver, amt, unc)
+        \/ FundFail(ver, amt, unc)
+        \/ LET sel == PolicySel(amt, unc) IN
+              /\ amt > 0 /\ SumV(Must(unc)) >= amt
+              /\ FundOK(ver, amt, unc, [tid |-> nextTx, ver |-> ver, ins |-> sel, out |-> amt, fee |-> 0,
+                                        made |-> ChangeOf(SumV(sel) - amt, nextId)])
+
+PolicyRedist ==
+    \E n \in RedistNs, amt \in RedistAmts :
+        \/ RedistNone(n, amt, 0)
+        \/ RedistFail(n, amt, 0)
+        \/ LET k == MinOf(n - Cardinality(SameMust(amt)), Batch)
+               sel == PickOver(ConfMust \ SameMust(amt), k * amt)
+           IN /\ k > 0 /\ SumV(sel) >= k * amt
+              /\ RedistOK(n, amt, 0, {[tid |-> nextTx, ver |-> 2, ins |-> sel, out |-> 0, fee |-> 0,
+                                       made |-> {[id |-> nextId + j - 1, v |-> amt] : j \in 1..k}
+                                                \cup ChangeOf(SumV(sel) - k * amt, nextId + k)]})
+
+PolicySplit ==
+    \E n \in SplitNs, mn \in SplitMins :
+        LET above == AboveMust(mn)
+            i == Big(above)
+            r == n - Cardinality(above) + 1
+            v == Val(i) - SplitFee
+            per == v \div r
+            can == /\ SplitArgsOK(n, mn) /\ above # {} /\ Cardinality(above) < n
+                   /\ v > 0 /\ per >= mn
+                   /\ (IF i \in DOMAIN owned THEN TRUE ELSE MakerVer(i) = 2)
+        IN \/ SplitNone(n, mn) /\ above # {} /\ Val(Big(above)) > SplitFee
+           \/ SplitErr(n, mn) /\ ~can /\ ~(SplitArgsOK(n, mn) /\ Cardinality(above) >= n /\ Val(Big(above)) > SplitFee)
+           \/ can /\ SplitOK(n, mn, [tid |-> nextTx, ver |-> 2, ins |-> {i}, out |-> 0, fee |-> SplitFee,
+                                     made |-> {[id |-> nextId + j - 1, v |-> per] : j \in 1..(r - 1)}
+                                              \cup {[id |-> nextId + r - 1, v |-> v - per * (r - 1)]}])
+
+PolicyNext ==
+    \/ PolicyFund
+    \/ PolicyRedist
+    \/ PolicySplit
+    \/ \E t \in TxIds : Release(t) \/ BcastAcc(t) \/ BcastRej(t)
+    \/ Tick
+    \/ Mine
+    \/ \E x \in Rewards : Reward(x, nextId)
+    \/ Restart
+
+PolicySpec == Init /\ [][PolicyNext]_vars
+\* ticks beyond the reservation period show nothing new
+BoundR == Bound /\ now <= cfg.rt
+WalletsR1 == { <<O(3, 0)>>, <<O(1, 0), O(2, 0)>> }
+WalletsR2 == { <<O(2, 0), O(3, 1)>>, <<O(2, 0), O(1, 2), O(3, 0)>> }
+WalletsR3 == { <<O(1, 0), O(2, 0), O(3, 0)>>, <<O(1, 0), O(2, 0), O(2, 0), O(4, 0)>> }
+CfgsR2    == {CfgTiny, CfgDt0}
+
 =============================================================================
